@@ -240,7 +240,9 @@ def summarise(branch, stmts, in_loop=None, env=None):
                             vid = fresh(n_)
                             env[n_] = vid
                             if reader is not None:
-                                ev.append(("read", vid, reader, s.lineno))
+                                # not a token read: a name left holding the unchecked original (operand tables ignore it,
+                                # the nullness rule treats it as a value that may be None)
+                                ev.append(("stale", vid, reader, s.lineno))
                         continue
                     if unguarded and not guarded:
                         # the inline close is substituted but never checked: the value may still be None
